@@ -3,6 +3,7 @@ Line-protocol driver around the executable model and the executable specificatio
 One request per line, one response line per request.  Pure: `handle : DState → String → DState × String`.
 -/
 import Sdmmc.Model.Mgr
+import Sdmmc.Model.Wrap
 import Sdmmc.Model.Crc
 import Sdmmc.Model.Csd
 import Sdmmc.Spec.Poly
@@ -126,6 +127,38 @@ def parseOp : List String → Option Op
   | ["eof", f] => do pure (.eof (← f.toNat?))
   | ["has_open"] => some .hasOpen
   | ["label", v] => do pure (.label (← v.toNat?))
+  | _ => none
+
+/-- A `u64` argument: a decimal number `≤ u64::MAX` (anything else is not a request the Rust side
+can make: `bad-op`). -/
+def parseU64 (s : String) : Option Nat := do
+  let n ← s.toNat?
+  if n ≤ Wrap.U64_MAX then some n else none
+
+/-- An `i64` argument: an optionally `-`-prefixed decimal number in `[i64::MIN, i64::MAX]`. -/
+def parseI64 (s : String) : Option Int := do
+  let x ← parseInt s
+  if Wrap.I64_MIN ≤ x ∧ x ≤ Wrap.I64_MAX then some x else none
+
+/-- The wrapper-level verbs (`Model.Wrap`): the RAII wrappers `File` / `Directory` / `Volume` and the
+`embedded_io` traits of `File`.  Handles are the raw handles the wrappers hold. -/
+def parseWOp : List String → Option Wrap.WOp
+  | ["io_read", f, n] => do pure (.ioRead (← f.toNat?) (← n.toNat?))
+  | ["io_write", f, h] => do pure (.ioWrite (← f.toNat?) (← bytesOfHex h))
+  | ["io_flush", f] => do pure (.ioFlush (← f.toNat?))
+  | ["io_seek_start", f, n] => do pure (.ioSeek (← f.toNat?) (.start (← parseU64 n)))
+  | ["io_seek_end", f, n] => do pure (.ioSeek (← f.toNat?) (.end_ (← parseI64 n)))
+  | ["io_seek_cur", f, n] => do pure (.ioSeek (← f.toNat?) (.current (← parseI64 n)))
+  | ["w_eof", f] => do pure (.eof (← f.toNat?))
+  | ["w_length", f] => do pure (.length (← f.toNat?))
+  | ["w_offset", f] => do pure (.offset (← f.toNat?))
+  | ["w_drop_file", f] => do pure (.dropFile (← f.toNat?))
+  | ["w_close_file", f] => do pure (.closeFile (← f.toNat?))
+  | ["w_drop_dir", d] => do pure (.dropDir (← d.toNat?))
+  | ["w_close_dir", d] => do pure (.closeDir (← d.toNat?))
+  | ["w_change_dir", d, n] => do pure (.changeDir (← d.toNat?) (← parseName n))
+  | ["w_drop_volume", v] => do pure (.dropVolume (← v.toNat?))
+  | ["w_close_volume", v] => do pure (.closeVolume (← v.toNat?))
   | _ => none
 
 def toBV8 (b : Bytes) : List (BitVec 8) := b.map fun x => BitVec.ofNat 8 x.toNat
@@ -330,7 +363,12 @@ def handle (st : DState) (line : String) : DState × String :=
     | some op =>
       let (m, out) := step st.mgr op
       ({ st with mgr := m }, showOut out)
-    | none => (st, "bad-op")
+    | none =>
+      match parseWOp rest with
+      | some wop =>
+        let (m, out) := Wrap.wstep st.mgr wop
+        ({ st with mgr := m }, showOut out)
+      | none => (st, "bad-op")
   | ["sw", i, h] =>
     match i.toNat?, bytesOfHex h with
     | some i, some b => if b.length ≠ 512 then (st, "bad-op") else ({ st with shadow := st.shadow.set i b }, "ok")
